@@ -25,6 +25,8 @@
 //!
 
 #![warn(missing_docs, missing_debug_implementations, rust_2018_idioms)]
+// the verification cfg re-exports private building blocks that carry no rustdoc
+#![cfg_attr(aws_smt_strings_verif, allow(missing_docs))]
 
 pub mod automata;
 pub mod character_sets;
